@@ -50,6 +50,7 @@ struct Ctx<'a> {
     values: &'a HashMap<String, (u16, Vec<u8>)>,
     cred: MessageIntegrityCredentials,
     ops: Vec<(String, String)>,
+    scratch: MessageBuilder<'a>,
     nodes: u64,
     mismatches: Vec<Value>,
     canon: HashMap<String, Vec<u8>>,
@@ -148,6 +149,13 @@ impl<'a> Ctx<'a> {
             path.push((op.clone(), kind.clone()));
             let mut nb: MessageBuilder<'a> = match op.as_str() {
                 "into_owned" => b.clone().into_owned(),
+                // Clone has two methods: clone_from into a builder that already holds other things (another header,
+                // other attributes, a fingerprint) must give the same builder as clone
+                "clone" if self.nodes % 2 == 1 => {
+                    let mut d = self.scratch.clone();
+                    d.clone_from(b);
+                    d
+                }
                 _ => b.clone(),
             };
             let got = self.apply(&mut nb, &op, &kind);
@@ -276,11 +284,18 @@ pub fn main_builder(args: &[String]) {
     ops.push(("add_fingerprint".into(), "FP".into()));
     ops.push(("into_owned".into(), "-".into()));
     ops.push(("clone".into(), "-".into()));
-    let cred: MessageIntegrityCredentials = ShortTermCredentials::new("builder-key".to_string()).into();
+    let cred: MessageIntegrityCredentials = ShortTermCredentials::new("builder-key 0123456789abcdef0123456789abcdef0123456789abcdef0123456789abcdef0123456789abcdef0123456789abcdef".to_string()).into();
     // the specification serialises a request with method 1 and this transaction id
     let tid = TransactionId::from(u128::from_be_bytes([0, 0, 0, 0, 9, 8, 7, 6, 5, 4, 3, 2, 1, 0, 11, 12]));
     let b0 = Message::builder(MessageType::from_class_method(MessageClass::Request, 1), tid);
-    let mut ctx = Ctx { lts: &lts, typed: &typed, values: &values, cred, ops, nodes: 0, mismatches: vec![], canon: HashMap::new(),
+    let mut scratch = Message::builder(MessageType::from_class_method(MessageClass::Error, 0x0abc), TransactionId::from(0x5555_6666_7777_8888_9999_aaaau128));
+    for k in ["Z", "B", "U"] {
+        if let Some(a) = typed.get(k) {
+            let _ = scratch.add_attribute(a.as_ref());
+        }
+    }
+    let _ = scratch.add_fingerprint();
+    let mut ctx = Ctx { lts: &lts, typed: &typed, values: &values, cred, ops, scratch, nodes: 0, mismatches: vec![], canon: HashMap::new(),
                         visited_full: HashMap::new(), state_out: vec![], asis: 0 };
     let mut path = vec![];
     ctx.dfs(&b0, "", 0, maxdepth, &mut path);
